@@ -406,7 +406,7 @@ func (g G) planSSO(prop string) *Plan {
 	o := &mixOpts{family: "sso-acceptance",
 		world: worldOpts{nilUnknownPct: 12, maxSPs: 3, maxUsers: 2, maxReplicas: 2, hardPct: 10, hardURLPct: 25, signReqVariety: true, parkVariety: true, noCertPct: 15, expiredSPCertPct: 10, issuerVariety: true,
 			endpointVariety: true, skewPct: 30},
-		wSSO: 50, wCallback: 2, wSLO: 2, wResume: 25, wFinish: 12, wAdvance: 4, wRereg: 3, wDelSP: 1, wRestart: 1,
+		wSSO: 50, wCallback: 2, wSLO: 2, wMeta: 3, wAttrQ: 2, wCert: 1, wResume: 25, wFinish: 12, wAdvance: 4, wRereg: 3, wDelSP: 1, wRestart: 1,
 		devPct: 30, tamperPct: 40, timePct: 25, bodyFaultPct: 4, rogueSPPct: 6, hostVariety: true, wCancel: 3, deadlinePct: 6,
 		minSteps: 3, maxSteps: 30, maxPre: 0, autoFinishPct: 40}
 	if prop == "C06" {
